@@ -4,13 +4,14 @@ CONSTANTS
   Schemas = {0, 1, 2}
   IdxLo <- NegLo
   IdxHi = 8
-  PIdx = {1, 2, 3}
-  NIdx = {1}
-  BPIdx = {1, 2, 3}
+  PIdx = {1, 2}
+  NIdx = {1, 2}
+  BPIdx = {1, 2}
   BNIdx = {1}
   Counts = {1}
   Thresholds <- Z_Thr
-  ZeroCounts = {1}
+  ZeroCounts = {1, 3}
+  BZeroCounts = {1}
   Bounds = {1, 2, 3}
   Kinds = {"exp"}
   Types = {"float"}
